@@ -693,7 +693,9 @@ func (g *Gen) topic() *Topic {
 	return nil
 }
 
-var pkgRoots = [][]string{{"foo", "v1"}, {"foo", "bar", "v1"}, {"acme", "baz", "v2"}, {"zed", "v1"}, {"acme", "users", "v1"}, {"lib", "common", "v3"}}
+// package directories: two to four name parts, and two that lie below the directory of another one
+var pkgRoots = [][]string{{"foo", "v1"}, {"foo", "bar", "v1"}, {"acme", "baz", "v2"}, {"zed", "v1"}, {"acme", "users", "v1"}, {"lib", "common", "v3"},
+	{"foo", "v1", "inner", "v1"}, {"acme", "baz", "v2", "ext", "v1"}, {"acme", "billing", "invoice", "v1"}}
 
 // Bundle generates a whole bundle; the returned package is the one to compile
 // (the last one: it may refer to all the others).
